@@ -149,6 +149,18 @@ MUTANTS = {
                     break
 """, "caught"),
         # negative controls
+        ("id-prefix-computed-once-per-process", "tatsu/util/misc.py", """    d = 8
+    t = time.monotonic_ns()
+    _mm, mn = divmod(t, 10**d)
+    return f"{i2greek(mn, width=d)}-{i2greek(os.getpid())}-{i2greek(next(_id_serial))}\"""", """    global _ID_PREFIX
+    if _ID_PREFIX is None:
+        _mm, mn = divmod(time.monotonic_ns(), 10**8)
+        _ID_PREFIX = f"{i2greek(mn, width=8)}-{i2greek(os.getpid())}"
+    return f"{_ID_PREFIX}-{i2greek(next(_id_serial))}"
+
+
+_ID_PREFIX = None
+""", "caught"),
         ("NC-told-min", "tatsu/packetz/queue.py", "self._told = max(q.tell(), self._told)", "self._told = min(q.tell(), self._told)", "quiet"),
         ("no-seen-dedupe", "tatsu/packetz/queue.py", "                if packet.id not in self._seen:\n                    self._seen.add(packet.id)\n                    yield packet", "                if True:\n                    yield packet", "caught"),
         ("NC-bigger-read-buffer", "tatsu/packetz/queue.py", 'with self.path.open("rb", buffering=1024 * 256) as q:', 'with self.path.open("rb", buffering=1024 * 1024) as q:', "quiet"),
